@@ -3,31 +3,10 @@
 From RV Require Import Model.F32.
 From RV Require Import Gen.PixelTables.
 From RV Require Import Model.Pixel.
+From RV Require Export Model.Blend8.
+From RV Require Export Proofs.ByteSweep.
 From Flocq Require Import Core BinarySingleNaN.
 Local Open Scope Z_scope.
-
-Lemma zrange_spec : forall n s z, In z (zrange n s) <-> s <= z < s + Z.of_nat n.
-Proof.
-  induction n; intros s z; simpl zrange.
-  - simpl. lia.
-  - simpl In. rewrite IHn. lia.
-Qed.
-
-Lemma bytes_spec : forall z, In z bytes <-> is_byte z.
-Proof. intro z. unfold bytes, is_byte. rewrite zrange_spec. simpl. lia. Qed.
-
-Lemma sweep1 (P : Z -> bool) :
-  forallb P bytes = true -> forall c, is_byte c -> P c = true.
-Proof. intros H c Hc. rewrite forallb_forall in H. apply H, bytes_spec, Hc. Qed.
-
-Lemma sweep2 (P : Z -> Z -> bool) :
-  forallb (fun a => forallb (fun c => P c a) bytes) bytes = true ->
-  forall c a, is_byte c -> is_byte a -> P c a = true.
-Proof.
-  intros H c a Hc Ha. rewrite forallb_forall in H.
-  specialize (H a (proj2 (bytes_spec a) Ha)). cbv beta in H.
-  rewrite forallb_forall in H. apply H, bytes_spec, Hc.
-Qed.
 
 (* sweep with the per-alpha float computed once per row (keeps vm_compute at ~30 s per 65 536 pairs).
    The lifted statement is syntactically the sweep's own body, so no conversion of closed float
